@@ -277,6 +277,34 @@ Definition slice_core (n : Z) (start stop step : option Z) : bool :=
       (((0 <? c) && core_both_pos n a b c) || ((c <? 0) && core_both_neg n a b))
   end.
 
+(* boolean hypotheses of the theorems: C++ `int` bounds, extent below 2^24 (binary32 exactness) *)
+Definition intb (v : Z) : bool := (- 2 ^ 31 <? v) && (v <? 2 ^ 31).
+Definition ointb (o : option Z) : bool := match o with None => true | Some v => intb v end.
+Definition axis_dom (n : Z) (a b c : option Z) : bool :=
+  (n <? 2 ^ 24) && ointb a && ointb b && ointb c && slice_core n a b c.
+
+(* several axes: every range part in axis_dom, every integer inside [-n,n), the parts account for
+   exactly the axes of the shape (nf = number of axes the ellipsis stands for) *)
+Definition ext_ok (n : Z) : bool := (0 <=? n) && (n <? 2 ^ 24).
+Fixpoint axes_core (nf : nat) (shape : list Z) (sls : list sl) : bool :=
+  match sls with
+  | [] => match shape with [] => true | _ => false end
+  | SInt i :: r =>
+      match shape with
+      | n :: s' => ext_ok n && (- n <=? i) && (i <? n) && axes_core nf s' r
+      | [] => false
+      end
+  | SEll :: r =>
+      Nat.leb nf (length shape) && forallb ext_ok (firstn nf shape) && axes_core nf (skipn nf shape) r
+  | SRange a b c :: r =>
+      match shape with
+      | n :: s' => axis_dom n a b c && axes_core nf s' r
+      | [] => false
+      end
+  end.
+Definition multi_dom (shape : list Z) (sls : list sl) : bool :=
+  wf_slices shape sls && axes_core (nfill shape sls) shape sls.
+
 (* result of one axis as a pair (length, index function) for comparison *)
 Definition model_axis_ok (n : Z) (start stop step : option Z) : bool :=
   match slice_len n start stop step with
